@@ -258,12 +258,19 @@ claim("C13",
       "position and its trimmed text parsed as u32 is the reference; otherwise the insertion point is after the "
       "target argument if present else after the bracket, and the token ends with `, ` when other key-values exist "
       "and `; ` when alone; C13_unusable_never_missing (a ref with a non-integer value is unusable: none of the three "
-      "processors counts or edits it); C13_written_value_is_recognised (what Breadlog writes parses back). Tie: "
+      "processors counts or edits it); C13_written_value_is_recognised (what Breadlog writes parses back). END TO END "
+      "FROM THE TEXT (Proofs/ArgLemmas.v: rule lemmas for rust_identifier, kvp_key, kvp_value, kvp_args, target_arg, "
+      "macro_args in their non-atomic context, against the generated grammar; Proofs/FileSpec.v): C13_canonical_files -- "
+      "on every file of the canonical file language, whose statements may carry `target: \"t\",` and any number of "
+      "key-values (identifier keys; digit-run / identifier / string-literal values) with any layout between all tokens, "
+      "the finder returns exactly `expected`; C13_structured_statement spells it out (entry AT the value of the first "
+      "`ref` key-value with a value, its trimmed text read as u32; else insertion after the target / the bracket with "
+      "`, ` / `; `); C13_message_style_statement; C13_ref_key; C13_pieces. Tie: "
       "structured statements over the key-value grammar with the property-text oracle on finder, model and binary; "
       "unusable refs reported as such and left alone.",
       "Known finding F10b (a comment between the ref value and its delimiter makes the reference unusable) is replayed "
       "and reported as KNOWN-FINDING." + PARSER_NOTE + COMMON_NOTE,
-      "Coq proof (glue specification over all canonical trees) + oracle-based differential campaign",
+      "Coq proof (rule lemmas for the argument rules on the generated grammar + glue specification; file-level parser specification theorem) + oracle-based differential campaign",
       "DESIGN.md section 6, C13")
 
 claim("C14",
